@@ -22,17 +22,23 @@ def DATA():
     )
 
 
+def pf(x):
+    """the value a number reads back as after being printed with six decimals"""
+    return float(fmt(x, ".6f"))
+
+
 def header(data_dict, atom_list):
     """The numbers a cube header must carry, in order: atom count and origin; for each axis the NEGATED
-    grid count (cube's signed-count convention) and its spacing row; one record per atom."""
+    grid count (cube's signed-count convention) and its spacing row; one record per atom (reals to the
+    printed precision of six decimals)."""
     o = data_dict["lower left corner"]
     n = data_dict["number of grid points"]
     s = data_dict["grid spacing"]
-    out = [len(atom_list), o[0], o[1], o[2]]
+    out = [len(atom_list), pf(o[0]), pf(o[1]), pf(o[2])]
     for i in range(3):
-        out = out + [-n[i], s[i][0], s[i][1], s[i][2]]
+        out = out + [-n[i], pf(s[i][0]), pf(s[i][1]), pf(s[i][2])]
     for a in atom_list:
-        out = out + [a.serial, a.charge, a.x, a.y, a.z]
+        out = out + [a.serial, pf(a.charge), pf(a.x), pf(a.y), pf(a.z)]
     return out
 
 
